@@ -21,6 +21,7 @@ PAD = 'crysp/padding.py'
 
 
 def run(ctx):
+    integrity(ctx, ['crysp/blake.py', 'crysp/md.py', 'crysp/nilsimsa.py', 'crysp/padding.py', 'crysp/sha.py'])
     ctx.rule('C14-R1 continuity')
     for rel, cname in HASHES:
         def one(rel=rel, cname=cname):
